@@ -144,7 +144,8 @@ class HplExpression(HplAstObject):
         return self.replace(is_self_reference, other)
 
     def replace_var_reference(self, alias: str, other: 'HplExpression') -> 'HplExpression':
-        return self.replace(lambda expr: is_var_reference(expr, alias=alias), other)
+        # child by child, so that a quantifier binding the same name can shield its own variable
+        return self.reshape(lambda expr: expr.replace_var_reference(alias, other))
 
     def replace(
         self,
@@ -640,6 +641,12 @@ class HplQuantifier(HplExpression):
         if alias == self.variable:
             return True
         return any(expr.contains_definition(alias) for expr in self.children())
+
+    def replace_var_reference(self, alias: str, other: HplExpression) -> HplExpression:
+        if alias == self.variable:
+            # occurrences below are bound by this quantifier, not references to the outer name
+            return self
+        return super().replace_var_reference(alias, other)
 
     def reshape(
         self,
